@@ -114,7 +114,7 @@ impl V {
 // ---------------------------------------------------------------------------------------------
 // the case abstraction
 
-pub trait BoxCase: Send + Sync {
+pub trait BoxCase {
     fn type_name(&self) -> &'static str;
     fn shape(&self) -> String;
     fn describe(&self) -> Value;
@@ -145,7 +145,7 @@ pub struct Case<B> {
 
 impl<B> BoxCase for Case<B>
 where
-    B: Mp4Box + PartialEq + std::fmt::Debug + Send + Sync + for<'w> WriteBox<&'w mut Vec<u8>> + for<'r> ReadBox<&'r mut Cursor<Vec<u8>>>,
+    B: Mp4Box + PartialEq + std::fmt::Debug + for<'w> WriteBox<&'w mut Vec<u8>> + for<'r> ReadBox<&'r mut Cursor<Vec<u8>>>,
 {
     fn type_name(&self) -> &'static str {
         self.tname
@@ -230,7 +230,7 @@ where
 
 fn case<B>(tname: &'static str, shape: String, lib: B, node: Node) -> Box<dyn BoxCase>
 where
-    B: Mp4Box + PartialEq + std::fmt::Debug + Send + Sync + 'static + for<'w> WriteBox<&'w mut Vec<u8>> + for<'r> ReadBox<&'r mut Cursor<Vec<u8>>>,
+    B: Mp4Box + PartialEq + std::fmt::Debug + 'static + for<'w> WriteBox<&'w mut Vec<u8>> + for<'r> ReadBox<&'r mut Cursor<Vec<u8>>>,
 {
     Box::new(Case { tname, shape, lib, node, payload_mask: None, decode_only: false })
 }
